@@ -10,9 +10,11 @@
                   one CharData child per CharData token -- v1.5.0 does NOT merge adjacent character data --, comments /
                   processing instructions / directives as children, attribute de-duplication unless
                   PreserveDuplicateAttrs), Document.Root() = first top-level element;
-     token_view   the element that  xml.Unmarshal  (= Decoder.Token over the same RawTokens: nesting check, consumption
-                  stops at the end tag of the first element) hands to the struct decoder; name-space translation is
-                  Schema.v's business and is not repeated here.
+     token_view   the element that  Decoder.Decode  (= Decoder.Token over the same RawTokens: nesting check, consumption
+                  stops at the end tag of the first element) hands to the struct decoder, for a fresh decoder with the
+                  pass-through CharsetReader (gosaml2's xmlUnmarshalDocument; [token_view_original]: without one, i.e.
+                  xml.Unmarshal, the pre-decoders before the repair 6cc4dbc); name-space translation is Schema.v's business
+                  and is not repeated here.
 
    The tokenizer is ONE structural recursion over the bytes ([run]: one call of the non-recursive [step] per byte), so
    it is total and fuel-free by construction; Go's one-byte push-back (ungetc) is resolved by calling the step function
@@ -471,8 +473,20 @@ Fixpoint tv_skip (toks : list rtok) : res node :=
   | _ :: r => tv_skip r
   end.
 
-(* xml.Unmarshal(bytes, _): a fresh decoder (Strict, no CharsetReader) *)
-Definition token_view (s : string) : res node := tv_skip (token_prefix false s).
+(* the CharsetReader setting of an xml.Decoder: nil (xml.Unmarshal, a bare xml.NewDecoder) or a function that accepts every
+   label and hands the input back unchanged (etree.newDecoder; gosaml2's xmlUnmarshalDocument since the repair 6cc4dbc) *)
+Inductive charset_reader := CsNone | CsPassThrough.
+Definition cs_flag (c : charset_reader) : bool := match c with CsNone => false | CsPassThrough => true end.
+
+(* Decoder.Decode(_) on a fresh Strict decoder over the bytes with that CharsetReader *)
+Definition token_view_with (c : charset_reader) (s : string) : res node := tv_skip (token_prefix (cs_flag c) s).
+
+(* what the unverified pre-decoders consume: xmlUnmarshalDocument(bytes, _) = a fresh decoder (Strict) with the pass-through
+   CharsetReader, the configuration etree reads with *)
+Definition token_view (s : string) : res node := token_view_with CsPassThrough s.
+(* the code before the repair: xml.Unmarshal(bytes, _), a fresh decoder (Strict, NO CharsetReader) -- kept for the
+   refuted-before-repair witness *)
+Definition token_view_original (s : string) : res node := token_view_with CsNone s.
 
 (* ================================================================ 9. observables for the correspondence run *)
 Definition attr_val (a : attr) : val := VC "A" [VS (at_space a); VS (at_key a); VS (at_val a)].
@@ -526,13 +540,15 @@ Fixpoint flip_bit (pos : nat) (mask : N) (s : string) : string :=
   end.
 
 (* one case of the tokenizer stream: the tokens, whether etree's tree (attributes de-duplicated) and the
-   duplicate-preserving tree agree with what the library built, and whether the element xml.Unmarshal consumes
-   is the one the harness collected from Decoder.Token *)
-Definition xmltok_case (i : string * option (option node) * option (option node) * option node) : val :=
+   duplicate-preserving tree agree with what the library built, and whether the element Decoder.Decode consumes -- with the
+   pass-through CharsetReader (the pre-decoders now) and without one (xml.Unmarshal, the pre-decoders before 6cc4dbc) -- is
+   the one the harness collected from Decoder.Token of a decoder configured that way *)
+Definition xmltok_case (i : string * option (option node) * option (option node) * option node * option node) : val :=
   match i with
-  | (s, exp_root, exp_raw, exp_view) =>
+  | (s, exp_root, exp_raw, exp_view, exp_view_original) =>
       VC "R" [toks_val (raw_tokens s);
               VB (root_agrees (read_root s) exp_root);
               VB (root_agrees (read_root_raw s) exp_raw);
-              VB (tree_agrees (blank_view (token_view s)) exp_view)]
+              VB (tree_agrees (blank_view (token_view s)) exp_view);
+              VB (tree_agrees (blank_view (token_view_original s)) exp_view_original)]
   end.
